@@ -112,6 +112,12 @@ def gen_history(rng, n_requests, swarm):
             src = "\n".join(x for x in [imports, sites.LANG_DEFS, pdefs, top] if x)
             steps.append({"op": "send", "raw": run_req(src, rid), "faults": faults})
             meta.append(f"fail:{key}@{placement}")
+            if r.chance(0.3):
+                # a user hammering :resume after an error
+                for _ in range(r.randint(1, 3)):
+                    rid += 1
+                    steps.append({"op": "send", "raw": run_req(":resume", rid), "faults": []})
+                    meta.append("cmd::resume")
         elif kind == "ctxexpr":
             # an expression evaluated "in context" (whatever frame the session is stopped in)
             e = r.choice(["prew", "lw + 1", "accw", "1 + 1", "nosuchvar", "let zq = 5 zq", "throw(\"ctx\")",
